@@ -426,3 +426,66 @@ Example protocol_instance :
   let s := {| rcl := [(5, 1)]; sll := [(100, [5])] |} in
   disciplined [100; 101] s (protocol [(7, 1)] [(101, [7]); (100, [])] [(5, 0)]) = true.
 Proof. vm_compute. reflexivity. Qed.
+
+(* ---- frame: a cell that no later event writes keeps its value in every later crash state (C05 at the level of
+   cells: a synced mapping / refcount survives whatever else is in flight) *)
+Definition writes_slot (i : N) (e : ev) : bool := match e with SetSlot i' _ => N.eqb i' i | _ => false end.
+Definition writes_rc (h : N) (e : ev) : bool := match e with SetRc h' _ => N.eqb h' h | _ => false end.
+
+Lemma masked_slot_frame i P : forall s m, forallb (fun e => negb (writes_slot i e)) P = true ->
+  get_sl (apply_masked s P m) i = get_sl s i.
+Proof.
+  induction P as [|e P IH]; intros s m H; [destruct m; reflexivity|].
+  cbn [forallb] in H. apply andb_prop in H as [He HP].
+  destruct m as [|b m]; [reflexivity|]. cbn [apply_masked]. destruct b; [|apply IH; exact HP].
+  rewrite IH by exact HP. rewrite get_sl_apply1. destruct e as [h v|i' t|]; try reflexivity.
+  cbn [writes_slot] in He. rewrite (N.eqb_sym i i'). destruct (N.eqb i' i); [discriminate|reflexivity].
+Qed.
+
+Lemma masked_rc_frame h P : forall s m, forallb (fun e => negb (writes_rc h e)) P = true ->
+  get_rc (apply_masked s P m) h = get_rc s h.
+Proof.
+  induction P as [|e P IH]; intros s m H; [destruct m; reflexivity|].
+  cbn [forallb] in H. apply andb_prop in H as [He HP].
+  destruct m as [|b m]; [reflexivity|]. cbn [apply_masked]. destruct b; [|apply IH; exact HP].
+  rewrite IH by exact HP. rewrite get_rc_apply1. destruct e as [h' v|i t|]; try reflexivity.
+  cbn [writes_rc] in He. rewrite (N.eqb_sym h h'). destruct (N.eqb h' h); [discriminate|reflexivity].
+Qed.
+
+Lemma apply_all_slot_frame i P s : forallb (fun e => negb (writes_slot i e)) P = true -> get_sl (apply_all s P) i = get_sl s i.
+Proof. intros H. rewrite apply_all_masked. apply masked_slot_frame. exact H. Qed.
+
+Lemma forallb_app_inv {A} (f : A -> bool) l1 l2 : forallb f (l1 ++ l2) = true -> forallb f l1 = true /\ forallb f l2 = true.
+Proof. rewrite forallb_app. intros H. apply andb_prop in H. exact H. Qed.
+
+Lemma firstn_forallb {A} (f : A -> bool) k l : forallb f l = true -> forallb f (firstn k l) = true.
+Proof.
+  revert k; induction l as [|x l IH]; intros [|k] H; cbn [firstn forallb]; try reflexivity.
+  cbn [forallb] in H. apply andb_prop in H as [Hx Hl]. rewrite Hx, (IH k Hl). reflexivity.
+Qed.
+
+(* the durable part and the pending part after any prefix, when nothing in the log writes slot i *)
+Lemma crun_slot_frame i evs : forall s P,
+  forallb (fun e => negb (writes_slot i e)) P = true ->
+  forallb (fun e => negb (writes_slot i e)) evs = true ->
+  get_sl (fst (crun s P evs)) i = get_sl s i /\
+  forallb (fun e => negb (writes_slot i e)) (snd (crun s P evs)) = true.
+Proof.
+  induction evs as [|e evs IH]; intros s P HP H; [split; [reflexivity|exact HP]|].
+  cbn [forallb] in H. apply andb_prop in H as [He Hr].
+  destruct e as [h v|i' t|]; cbn [crun].
+  - apply IH; [|exact Hr]. rewrite forallb_app, HP. cbn [forallb]. rewrite He. reflexivity.
+  - apply IH; [|exact Hr]. rewrite forallb_app, HP. cbn [forallb]. rewrite He. reflexivity.
+  - destruct (IH (apply_all s P) [] eq_refl Hr) as [A B]. split; [|exact B].
+    rewrite A. apply apply_all_slot_frame. exact HP.
+Qed.
+
+Theorem synced_slot_survives i s evs :
+  forallb (fun e => negb (writes_slot i e)) evs = true ->
+  forall k m, let st := crun s [] (firstn k evs) in
+  get_sl (apply_masked (fst st) (snd st) m) i = get_sl s i.
+Proof.
+  intros H k m st. subst st.
+  destruct (crun_slot_frame i (firstn k evs) s [] eq_refl (firstn_forallb _ k evs H)) as [A B].
+  rewrite masked_slot_frame by exact B. exact A.
+Qed.
